@@ -12,6 +12,8 @@ package main
 //  (P) Open -> Sign -> Open: an existing signature is elided by Sign only if a signer uses the same key; all
 //      others (verified and unverified, also several distinct ones of one key) are emitted, before the new ones.
 //  (A) VerifierList with two verifiers for one (name, hash): lookup fails, Open fails.
+//  (H) "any set of known verifiers": a VerifierList holds the verifiers it was built from, whatever the caller
+//      does with the slice it passed with '...' afterwards; (S)/(B)/(R)/(A) on such histories (util_c07alias.go).
 
 import (
 	"bytes"
@@ -247,7 +249,9 @@ func oracleC07(g *Gen, n int) {
 		return
 	}
 	for it := 0; it < n; it++ {
-		switch r.Intn(14) {
+		switch r.Intn(16) {
+		case 14, 15:
+			c07OracleAlias(g, keys) // histories on a caller-owned slice (util_c07alias.go)
 		case 12, 13:
 			c07OracleReSign(g, keys)
 		case 0, 1, 2:
